@@ -738,13 +738,103 @@ Fixpoint cc_scan (cc : Z) (s : ccst) (l : list xrow) : bool :=
   | r :: t => if x_k r =? 7 then true else cc_check cc s r && cc_scan cc (cc_upd s r) t
   end.
 
+(* C10, CUBIC: the window shrinks at most once per round trip.  Between two reductions of the
+   reported window some packet sent after the first reduction must have been acknowledged (the
+   recovery period ended), unless the second one is persistent congestion (window = minimum). *)
+Record oncest := {
+  o_sent : list (Z * Z * Z);    (* (space, packet number, time sent), not yet acknowledged *)
+  o_cwnd : Z; o_mtu : Z;
+  o_red_t : Z;                  (* time of the last reduction, -1 if none *)
+  o_red_ok : bool;              (* a packet sent after o_red_t was acknowledged since *)
+  o_cong : bool }.              (* a congestion event was reported since the last recovery metrics *)
+
+Definition once_init : oncest := {| o_sent := []; o_cwnd := 12000; o_mtu := 1200; o_red_t := -1; o_red_ok := false; o_cong := false |}.
+
+Definition o_cov (sp lo hi : Z) (u : Z * Z * Z) : bool :=
+  (fst (fst u) =? sp) && (lo <=? snd (fst u)) && (snd (fst u) <=? hi).
+
+(* a window reduction: the reported window drops right after a congestion event (a drop without
+   one is a rescaling after an MTU change) *)
+Definition is_reduction (s : oncest) (r : xrow) : bool := (x_k r =? 3) && (g_a r <? o_cwnd s) && o_cong s.
+
+Definition once_check (s : oncest) (r : xrow) : bool :=
+  if is_reduction s r
+  then (o_red_t s =? -1) || o_red_ok s || (g_a r <=? 2 * o_mtu s)
+  else true.
+
+Definition once_upd (s : oncest) (r : xrow) : oncest :=
+  if x_k r =? 0 then
+    {| o_sent := (g_x r, g_a r, g_time r) :: o_sent s; o_cwnd := o_cwnd s; o_mtu := o_mtu s;
+       o_red_t := o_red_t s; o_red_ok := o_red_ok s; o_cong := o_cong s |}
+  else if x_k r =? 1 then
+    {| o_sent := filter (fun u => negb (o_cov (g_x r) (g_a r) (g_b r) u)) (o_sent s);
+       o_cwnd := o_cwnd s; o_mtu := o_mtu s; o_red_t := o_red_t s;
+       o_red_ok := o_red_ok s ||
+                   existsb (fun u => o_cov (g_x r) (g_a r) (g_b r) u && (o_red_t s <? snd u)) (o_sent s);
+       o_cong := o_cong s |}
+  else if x_k r =? 3 then
+    {| o_sent := o_sent s; o_cwnd := g_a r; o_mtu := o_mtu s;
+       o_red_t := if (g_a r <? o_cwnd s) && o_cong s then g_time r else o_red_t s;
+       o_red_ok := if (g_a r <? o_cwnd s) && o_cong s then false else o_red_ok s;
+       o_cong := false |}
+  else if x_k r =? 5 then
+    {| o_sent := o_sent s; o_cwnd := o_cwnd s; o_mtu := o_mtu s; o_red_t := o_red_t s; o_red_ok := o_red_ok s;
+       o_cong := true |}
+  else if x_k r =? 6 then
+    {| o_sent := o_sent s; o_cwnd := o_cwnd s; o_mtu := g_a r; o_red_t := o_red_t s; o_red_ok := o_red_ok s;
+       o_cong := o_cong s |}
+  else s.
+
+Fixpoint once_scan (s : oncest) (l : list xrow) : bool :=
+  match l with
+  | [] => true
+  | r :: t => if x_k r =? 7 then true else once_check s r && once_scan (once_upd s r) t
+  end.
+
 Definition e2e_cc_judge (case out : list Z) : bool :=
   if negb ((nz out 0 =? 1) && Nat.leb 6 (length out)) then false else
   match take_rows 8 (nz out 5) (skipn 6 out) with
   | Some (rws, []) =>
       let l := map mk_xrow rws in
       cc_scan (nz out 3) cc_init (filter (fun r => x_ep r =? 0) l) &&
-      cc_scan (nz out 3) cc_init (filter (fun r => x_ep r =? 1) l)
+      cc_scan (nz out 3) cc_init (filter (fun r => x_ep r =? 1) l) &&
+      ((negb (nz out 3 =? 0)) ||
+       (once_scan once_init (filter (fun r => x_ep r =? 0) l) &&
+        once_scan once_init (filter (fun r => x_ep r =? 1) l)))
+  | _ => false
+  end.
+
+(* ------------------------------------------------------------------------------------------ *)
+(* e2e_violate (C04): a peer that breaks one rule                                             *)
+(* ------------------------------------------------------------------------------------------ *)
+(* [1, kind, injected, inject_time_us, expected_code, delay_ms,
+    victim closed, close class (2 = transport), transport code, closed_us, closed locally,
+    n_flows, flows x10] *)
+
+Record vtrace := {
+  v_injected : Z; v_time : Z; v_expected : Z; v_delay_ms : Z;
+  v_closed : Z; v_class : Z; v_code : Z; v_closed_us : Z; v_local : Z; v_flows : list flow }.
+
+(* RFC 9000 section 11: an endpoint may use a generic code in place of a specific one *)
+Definition code_ok (expected code : Z) : bool :=
+  (code =? expected) || (code =? 10) (* PROTOCOL_VIOLATION *) || (code =? 1) (* INTERNAL_ERROR *).
+
+(* the offending packet reaches the victim one network delay after it was built; the close must
+   follow without waiting for any timer: one more delay and 100 ms of slack *)
+Definition violate_ok (t : vtrace) : bool :=
+  if v_injected t =? 0 then true else
+  (v_closed t =? 1) && (v_class t =? 2) && (v_local t =? 1) && code_ok (v_expected t) (v_code t) &&
+  (v_closed_us t <=? v_time t + 2 * v_delay_ms t * 1000 + 100000) &&
+  (* none of the offending bytes (they differ from what the application wrote) was delivered *)
+  forallb (fun f => f_wrong f =? -1) (v_flows t).
+
+Definition e2e_violate_judge (case out : list Z) : bool :=
+  if negb ((nz out 0 =? 1) && Nat.leb 12 (length out)) then false else
+  match take_rows 10 (nz out 11) (skipn 12 out) with
+  | Some (frows, []) =>
+      violate_ok {| v_injected := nz out 2; v_time := nz out 3; v_expected := nz out 4; v_delay_ms := nz out 5;
+                    v_closed := nz out 6; v_class := nz out 7; v_code := nz out 8; v_closed_us := nz out 9;
+                    v_local := nz out 10; v_flows := map mk_flow frows |}
   | _ => false
   end.
 
